@@ -4,7 +4,6 @@ import (
 	"encoding/json"
 	"fmt"
 	"iter"
-	"math"
 	"slices"
 	"sort"
 	"strconv"
@@ -223,7 +222,12 @@ func (i pyInt) Operator(operator Operator, operand pyObject) pyObject {
 		case Divide:
 			return i / o
 		case FloorDivide:
-			return newPyInt(int(math.Floor(float64(i) / float64(o))))
+			// Done in integer arithmetic; going via float64 loses precision above 2^53.
+			q := i / o
+			if i%o != 0 && (i < 0) != (o < 0) {
+				q-- // round towards negative infinity, not towards zero
+			}
+			return newPyInt(int(q))
 		case LessThan:
 			return newPyBool(i < o)
 		case GreaterThan:
